@@ -355,6 +355,8 @@ func NewConnWithOpts(session Session, cfg *Config, opts ...Option) *Conn {
 		cc.processReceivedMessage = processReceivedMessage
 	}
 	cc.receivedMessageReader = client.NewReceivedMessageReader(&cc, cfg.ReceivedMessageQueueSize)
+	// a request issued from a handler that has to wait for a limit must not hold up the receive loop
+	limitParallelRequests.SetOnWait(cc.receivedMessageReader.TryToReplaceLoop)
 	return &cc
 }
 
@@ -486,9 +488,12 @@ func (cc *Conn) acquireOutstandingInteraction(ctx context.Context) error {
 		return fmt.Errorf("invalid NStart value %v", nStart)
 	}
 	n := math.MaxInt64 - int64(cc.Transmission().nStart.Load()) + 1
-	err := cc.numOutstandingInteraction.Acquire(ctx, n)
-	if err != nil {
-		return err
+	if !cc.numOutstandingInteraction.TryAcquire(n) {
+		// the request has to wait for NSTART; if a handler issued it, the receive loop goes on meanwhile
+		cc.receivedMessageReader.TryToReplaceLoop()
+		if err := cc.numOutstandingInteraction.Acquire(ctx, n); err != nil {
+			return err
+		}
 	}
 	cc.numOutstandingInteraction.Release(n - 1)
 	return nil
